@@ -120,6 +120,9 @@ def opticG (B : Backend) (op : String) (args : List Sx) (impl : Sx) : Option Out
     -- another length is outside it — there only model and implementation are compared, so that the
     -- minimiser cannot drift to a mis-sized vector and report it as the failing input)
     let sized := x.length == f.sources.length && dy.length == f.targets.length
+      -- … and over POLYNOMIAL circuits: for the bitwise labels 6/7/8 the dual-number rule below is not
+      -- the gate (Props/C14RefOracle.lean: the oracle is proved right for every other label)
+      && f.hypergraph.edges.all (fun l => l != 6 && l != 7 && l != 8)
     let oracle : Bool := !sized || match (LOHG.toStrict B f).bind (fun sf => refRevDeriv B sf x dy), (unOk impl).bind (dec (α := L × Bool)) with
       | .ok (fx, g), some (io, mono) => io == fx ++ g && mono
       | _, _ => false
